@@ -11,7 +11,8 @@ from core import Case
 from props import _sg
 
 PID = "C13"
-LEAN_MODULES = ["KrroodVerif.Props.C13", "KrroodVerif.Props.C13Table", "KrroodVerif.Props.C13Step"]
+LEAN_MODULES = ["KrroodVerif.Props.C13", "KrroodVerif.Props.C13Table", "KrroodVerif.Props.C13Step",
+                "KrroodVerif.Props.C13StepComplete"]
 THEOREMS = [
     "KrroodVerif.SG.C13_inv_init",
     "KrroodVerif.SG.C13_inv_step",
@@ -41,6 +42,9 @@ THEOREMS = [
     "KrroodVerif.SG.C13_stepwise_partial",
     "KrroodVerif.SG.C13_stepwise_snapshot",
     "KrroodVerif.SG.C13_cex_stepwise",
+    "KrroodVerif.SG.step_heapAdm",
+    "KrroodVerif.SG.C13_stepwise_complete",
+    "KrroodVerif.SG.C13_stepwise_exact_snapshot",
 ]
 TRANSLATED = ["KrroodVerif.SG.Translated.C13_table_translated_eq_model",
               "KrroodVerif.SG.Translated.C13_translated_census"]
